@@ -61,7 +61,7 @@ func mapKinds(a []string) []string {
 func init() {
 	sup.Register(&sup.Check{
 		Prop: "C16", Level: "exploration",
-		Rule: "feed-lifecycle scripts on a bucket with two handles (the second one optionally never opens collection Y): three feeds drawn from {live, backfill+live, dump, multi-collection, dump without backfill, multi-collection dump} x starting handle x collection, then 2-4 (quick) / 3-6 (thorough) shutdown actions in PRNG order from {terminator of feed 0/1/2, DropDataStore(Y) through handle 0 or through a handle that never opened Y, Close(handle 0), Close(handle 1) (also of a handle that is closed already; after a Close a multi-collection feed through the closed handle must be refused), CloseAndDelete}, with a background writer; after every action each feed's expected status is checked: a feed that must have ended has its done channel closed within 10 s and no callback afterwards, a feed that should still run receives a fresh write on its collection within 10 s (barrier); after the store is shut down the goroutine profile must hold no dcpFeed.run goroutine; also under the race detector; feed kind checkpointed (backfill+live with a checkpoint prefix); action DropDataStore through a closed handle (refused: the feeds go on); (queued shutdown) CloseAndDelete / Close of the only on-disk handle under a parked callback: at most two more callbacks, done closed; (sweep after re-create) an expiry sweep must not end the feeds of a collection that was dropped and created again; feed kind multi-collection-partial (one part cannot start: the call is refused, done must close once the terminator is closed or the store is gone); cell = (feed kind, handle, collection, bucket type) / (action order)",
+		Rule: "feed-lifecycle scripts on a bucket with two handles (the second one optionally never opens collection Y): three feeds drawn from {live, backfill+live, dump, multi-collection, dump without backfill, multi-collection dump} x starting handle x collection, then 2-4 (quick) / 3-6 (thorough) shutdown actions in PRNG order from {terminator of feed 0/1/2, DropDataStore(Y) through handle 0 or through a handle that never opened Y, Close(handle 0), Close(handle 1) (also of a handle that is closed already; after a Close a multi-collection feed through the closed handle must be refused), CloseAndDelete}, with a background writer; after every action each feed's expected status is checked: a feed that must have ended has its done channel closed within 10 s and no callback afterwards, a feed that should still run receives a fresh write on its collection within 10 s (barrier); after the store is shut down the goroutine profile must hold no dcpFeed.run goroutine; also under the race detector; feed kind checkpointed (backfill+live with a checkpoint prefix); action DropDataStore through a closed handle (refused: the feeds go on); (queued shutdown) CloseAndDelete / Close of the only on-disk handle under a parked callback: at most two more callbacks, done closed; (sweep after re-create) an expiry sweep must not end the feeds of a collection that was dropped and created again; feed kind multi-collection-partial (one part cannot start: the call is refused, done must close once the terminator is closed or the store is gone); feed kind terminator-closed-before-start; cell = (feed kind, handle, collection, bucket type) / (action order)",
 		Assumptions: []string{"'ends' is decided as bounded progress (10 s) with the scheduler otherwise idle", "DropDataStore is issued through the handle that created the collection"},
 		Parts: []sup.Part{
 			{Name: "feed-scripts", Timeout: 150 * time.Second, Count: func(t string) int { return tierN(t, 1024, 50000) }, Run: func(c *sup.Ctx) {
